@@ -31,6 +31,13 @@ pub struct ConnPlan {
     pub cut_after_reply_bytes: Option<u32>,
     /// close the connection right after this many requests were read (before replying to the last)
     pub cut_after_requests: Option<u16>,
+    /// stop READING after this many requests (the connection stays open, nothing more is answered):
+    /// together with a small pipe this puts the product's write half under back-pressure
+    #[serde(default)]
+    pub read_stall_after: Option<u16>,
+    /// capacity in bytes of the in-memory byte pipe of this connection (0 = 64 KiB)
+    #[serde(default)]
+    pub pipe: u32,
 }
 
 #[derive(Debug, Clone, Serialize, Deserialize, Default)]
@@ -56,11 +63,12 @@ pub struct ScriptedBackend {
     /// (conn, number of reply bytes written, cut?)
     pub cuts: Mutex<Vec<(usize, usize)>>,
     pub fragmented_inside_packet: AtomicUsize,
+    pub read_stalls: AtomicUsize,
 }
 
 impl ScriptedBackend {
     pub fn new(script: Script) -> Arc<ScriptedBackend> {
-        Arc::new_cyclic(|me| ScriptedBackend { me: me.clone(), script, log: Mutex::new(vec![]), conn_count: AtomicUsize::new(0), cuts: Mutex::new(vec![]), fragmented_inside_packet: AtomicUsize::new(0) })
+        Arc::new_cyclic(|me| ScriptedBackend { me: me.clone(), script, log: Mutex::new(vec![]), conn_count: AtomicUsize::new(0), cuts: Mutex::new(vec![]), fragmented_inside_packet: AtomicUsize::new(0), read_stalls: AtomicUsize::new(0) })
     }
 
     /// the reply the backend gives to a request: it names the request (its last argument)
@@ -77,7 +85,7 @@ impl ScriptedBackend {
             return RVal::Bulk(Some(name));
         }
         let h = name.iter().fold(7usize, |a, b| a.wrapping_mul(31).wrapping_add(*b as usize));
-        match h % 7 {
+        match if shapes == 2 { 5 } else { h % 7 } {
             0 | 1 => RVal::Bulk(Some(name)),
             2 => RVal::Arr(Some(vec![RVal::Bulk(Some(name)), RVal::Bulk(None), RVal::Int(b"42".to_vec()), RVal::Arr(Some(vec![]))])),
             3 => {
@@ -137,6 +145,13 @@ async fn serve(be: Arc<ScriptedBackend>, idx: usize, plan: ConnPlan, mut io: tok
     let mut frag_i = 0usize;
     let coalesce = plan.coalesce.max(1) as usize;
     loop {
+        if let Some(n) = plan.read_stall_after {
+            if nreq >= n as usize && pending.is_empty() {
+                be.read_stalls.fetch_add(1, Ordering::Relaxed);
+                // never read again, never answer again, keep the connection open
+                futures::future::pending::<()>().await;
+            }
+        }
         let mut chunk = [0u8; 4096];
         // flush on idle so that a short pipeline is not kept waiting for a full batch
         let n = if pending.is_empty() {
@@ -224,7 +239,7 @@ impl ConnFactory for ScriptedBackend {
                 return Err(BackendError::Io(std::io::Error::new(std::io::ErrorKind::ConnectionRefused, "refused (scripted)")));
             }
             let Some(me) = me else { return Err(BackendError::InvalidState) };
-            let (client, server) = tokio::io::duplex(1 << 16);
+            let (client, server) = tokio::io::duplex(if plan.pipe == 0 { 1 << 16 } else { plan.pipe as usize });
             tokio::spawn(serve(me, idx, plan, server));
             // exactly what the product's create_conn builds over a TcpStream
             let (encoder, decoder) = new_simple_packet_codec::<RespPacket, RespPacket>();
